@@ -999,7 +999,7 @@ func c5NewTee(c *Ctx, rule string) {
 	}
 	var bad []string
 	paths := 0
-	for N := int64(0); N <= 3; N++ {
+	for N := int64(0); N <= int64(depth(3, 5)); N++ {
 		n := N
 		seqs, trunc := ConcPaths(fn, ConcCfg{
 			MaxIter:  int(N) + 1,
